@@ -674,6 +674,15 @@ func readShard(rep *Report, in HamtInput, st *Store, root cid.Cid, expected map[
 				if len(ploads) != nShards {
 					fail("C06", "preload-incomplete", "preload reification did not request every shard of the directory", nShards, len(ploads))
 				}
+				var wantP []int
+				for i := range order {
+					if isShard(i) {
+						wantP = append(wantP, i)
+					}
+				}
+				if in.Mode != "hostile" && fmt.Sprint(ploads) != fmt.Sprint(wantP) && len(ploads) == nShards {
+					fail("C20", "preload-order", "preload reification does not request the shards in depth-first link order", wantP, ploads)
+				}
 				for _, ix := range ploads {
 					if !isShard(ix) {
 						fail("C06", "preload-loads-entry", "preload reification requested a block belonging to an entry", nil, ix)
@@ -1058,7 +1067,7 @@ func scnHamt(rep *Report, rng *Rng, tier string, outdir string) {
 	rep.Dist("C02", fmt.Sprintf("hashbits-cases=%d", len(hashes)))
 
 	// ---- name pools
-	base := []string{"a", "b", "file with spaces", "ünïcödé", "日本語", "00", "FF", "1F", "0A", "3FF", "deadbeef", "A", "aa", "a.txt", "b.txt", "index.html", " ", "\x00\x01", "caf\xe9.txt", "\xff\xfe", "\xe6\x97", "ok\xc3"}
+	base := []string{"a", "b", "file with spaces", "ünïcödé", "日本語", "00", "FF", "1F", "0A", "3FF", "deadbeef", "A", "aa", "a.txt", "b.txt", "index.html", " ", "\x00\x01", "caf\xe9.txt", "\xff\xfe", "\xe6\x97", "ok\xc3", "docs/readme", "a/", "/", "Links", "Data"}
 	names := func(n int) []string {
 		seen := map[string]bool{}
 		var out []string
@@ -1116,7 +1125,7 @@ func scnHamt(rep *Report, rng *Rng, tier string, outdir string) {
 		return es
 	}
 	probesFor := func(ns []string) []string {
-		ps := []string{"", "zz-not-there", "entry-", "\xff"}
+		ps := []string{"", "zz-not-there", "entry-", "\xff", "Links", "Data", "Hash", "x/y"}
 		for i := 0; i < 6 && i < len(ns); i++ {
 			n := ns[rng.Intn(len(ns))]
 			ps = append(ps, n+"x", "0"+n, "00"+n, "FF"+n)
